@@ -946,6 +946,9 @@ func asBool(o Object) Boolean {
 //@ ensures [C02.load.found] result1 == nil && isType(key, Name) ==> (exists j :: 0 <= j && j < len(intp.DictStack) && has(intp.DictStack[j], key.(Name)) && result0 == intp.DictStack[j][key.(Name)] && (forall k :: j < k && k < len(intp.DictStack) ==> !has(intp.DictStack[k], key.(Name))))
 //@ ensures [C02.load.undefined] isType(key, Name) && (forall k :: 0 <= k && k < len(intp.DictStack) ==> !has(intp.DictStack[k], key.(Name))) ==> isPSErr(result1, eUndefined)
 //@ loop 1 invariant [C02.load] -1 <= j && j < len(intp.DictStack) && (forall k :: j < k && k < len(intp.DictStack) ==> !has(intp.DictStack[k], name))
+//@ ensures [C03.load.operator.found] result1 == nil && isType(key, Operator) ==> (exists j :: 0 <= j && j < len(intp.DictStack) && has(intp.DictStack[j], Name(key.(Operator))) && result0 == intp.DictStack[j][Name(key.(Operator))] && (forall k :: j < k && k < len(intp.DictStack) ==> !has(intp.DictStack[k], Name(key.(Operator)))))
+//@ ensures [C03.load.operator.undefined] isType(key, Operator) && (forall k :: 0 <= k && k < len(intp.DictStack) ==> !has(intp.DictStack[k], Name(key.(Operator)))) ==> isPSErr(result1, eUndefined)
+//@ ensures [C03.load.operator.defined] isType(key, Operator) && result1 != nil ==> (forall k :: 0 <= k && k < len(intp.DictStack) ==> !has(intp.DictStack[k], Name(key.(Operator))))
 
 //@ func isStringOrArray
 //@ ensures [C07.bfrange.dsttype] result == (isType(o, String) || isType(o, Array))
@@ -1122,3 +1125,18 @@ func asBool(o Object) Boolean {
 //@ ensures [C02.defineresource.underflow] old(depth(intp)) < 3 ==> isPSErr(result, eStackunderflow) && depth(intp) == old(depth(intp))
 //@ ensures [C02.defineresource.ok] result == nil ==> depth(intp) == old(depth(intp)) - 2 && top(intp, 0) == old(top(intp, 1)) && stackFrame(intp, 3)
 //@ ensures [C02.defineresource.cmap] result == nil && isType(old(top(intp, 0)), Name) && old(top(intp, 0)).(Name) == Name("CMap") ==> isType(old(top(intp, 1)), Dict) && old(has(top(intp, 1).(Dict), Name("CodeMap"))) && isType(old(top(intp, 1).(Dict)[Name("CodeMap")]), *CMapInfo)
+
+// C03: bind replaces the executable operator names in a procedure by the
+// operators they denote at bind time (PLRM 8.2, bind); literal names and all
+// other simple objects are left alone, names that do not denote an operator
+// stay names.
+//@ define topBinding(intp, nm, j) = 0 <= j && j < len(intp.DictStack) && has(intp.DictStack[j], nm) && (forall k :: j < k && k < len(intp.DictStack) ==> !has(intp.DictStack[k], nm))
+//@ func (*Interpreter).bindProc
+//@ loop 1 back-when [C03.bind.literal] !isType(prev(proc[i]), Operator) && !isType(prev(proc[i]), Procedure) ==> (forall k :: 0 <= k && k < len(proc) ==> proc[k] == prev(proc[k]))
+//@ loop 1 back-when [C03.bind.operator.frame] isType(prev(proc[i]), Operator) ==> (forall k :: 0 <= k && k < len(proc) && k != prev(i) ==> proc[k] == prev(proc[k]))
+//@ loop 1 back-when [C03.bind.operator.value] isType(prev(proc[i]), Operator) ==> (forall j :: topBinding(intp, Name(prev(proc[i]).(Operator)), j) ==> (isType(intp.DictStack[j][Name(prev(proc[i]).(Operator))], builtin) ==> proc[prev(i)] == intp.DictStack[j][Name(prev(proc[i]).(Operator))]) && (!isType(intp.DictStack[j][Name(prev(proc[i]).(Operator))], builtin) ==> proc[prev(i)] == prev(proc[i])))
+//@ loop 1 back-when [C03.bind.operator.undefined] isType(prev(proc[i]), Operator) && (forall j :: 0 <= j && j < len(intp.DictStack) ==> !has(intp.DictStack[j], Name(prev(proc[i]).(Operator)))) ==> proc[prev(i)] == prev(proc[i])
+//@ func bBind
+//@ ensures [C03.bind.underflow] old(depth(intp)) < 1 ==> isPSErr(result, eStackunderflow)
+//@ ensures [C03.bind.type] old(depth(intp)) >= 1 && !isType(old(top(intp, 0)), Procedure) ==> isPSErr(result, eTypecheck)
+//@ ensures [C03.bind.depth] depth(intp) == old(depth(intp))
